@@ -402,7 +402,7 @@ func genVal(depth int) *rapid.Generator[Val] {
 		}
 		switch {
 		case k == 13:
-			return Val{Kind: "rawjson", Items: []Val{genVal(depth - 1).Draw(t, "rawinner")}}
+			return Val{Kind: "rawjson", Items: []Val{genVal(depth-1).Draw(t, "rawinner")}}
 		case k == 12:
 			// values encoding/json refuses, alone or carrying a string
 			switch rapid.IntRange(0, 4).Draw(t, "unencodable") {
